@@ -21,7 +21,7 @@ func init() {
 			"NOT decided: parenthesisation/precedence of printed binary expressions, equality of re-parsed trees for every statement, protobuf field numbering.",
 		Assumptions: commonAssumptions,
 		Technique:   "static analysis: struct field coverage of encoder/decoder pairs, printer/scanner table agreement from the typed AST, who-may-keep rule for no-copy decoder views, type-tag tables",
-		Rules:       "C12.R1 R2 R3 R4",
+		Rules:       "C12.R1 R2 R3 R4 R5",
 	}
 }
 
@@ -68,6 +68,7 @@ func c12(c *an.Ctx) {
 	c12printers(c)
 	c12nocopy(c)
 	c12plantags(c)
+	c12round2(c)
 }
 
 // structFields lists the declared (non-embedded: flattened) field names of a named struct.
@@ -669,4 +670,101 @@ func c12plantags(c *an.Ctx) {
 	}
 	r.AddSites(n)
 	r.Floor(15, "plan node types")
+}
+
+var c12CodecSkips = map[string]string{
+	"lib/util/lifted/influx/query:encodeProcessorOptions: continue in loop over opt.Sources": "only measurements are shipped as sources; sub-queries and other source kinds are planned into the shipped plan, not into Sources",
+}
+
+func c12round2(c *an.Ctx) {
+	// ---- bare identifiers: what the printer leaves unquoted must scan as one identifier
+	r := c.Rule("C12.R2", "K-CONTRACT(printer/scanner)", qlPkg+":IdentNeedsQuotes — keywords, a first rune that cannot start an identifier and any later rune that cannot continue one force quoting")
+	if f := fn(r, qlPkg+":IdentNeedsQuotes"); f != nil {
+		retTrue := f.Find(an.ReturnsBool(0, true))
+		r.AddSites(3)
+		for _, t := range []struct{ re, what string }{
+			{`^influxql\.isIdentFirstChar\(`, "a first rune that is not an identifier-start rune forces quoting (a digit-leading name would be scanned as a number or duration)"},
+			{`^influxql\.isIdentChar\(`, "a rune that is not an identifier rune forces quoting"},
+			{`^influxql\.IDENT==`, "a keyword forces quoting"},
+		} {
+			edges := f.EdgesImplyingAny(an.AtomLike(t.re, false))
+			if len(edges) == 0 {
+				r.Fail("IdentNeedsQuotes: "+t.what, c.P.Pos(f.Body.Pos()), "no branch of IdentNeedsQuotes is taken because of !%s; conditions present: %s", t.re, strings.Join(f.CondAtoms(), " ; "))
+				continue
+			}
+			f.AfterEdgesMustPass(r, edges, retTrue, t.what)
+		}
+		// the first-rune test applies to index 0 only and the other test to the rest: together they cover every rune
+		atoms := strings.Join(f.CondAtoms(), " ; ")
+		if !strings.Contains(atoms, "0==local(i)") && !strings.Contains(atoms, "0<local(i)") && !strings.Contains(atoms, "local(i)<1") {
+			r.Fail("IdentNeedsQuotes: position", c.P.Pos(f.Body.Pos()), "the first-rune test is no longer tied to position 0; atoms: %s", atoms)
+		}
+	}
+	// the scanner starts an identifier only at an identifier-start rune
+	if f := fn(r, qlPkg+":Scanner.Scan"); f != nil {
+		found := false
+		for _, a := range f.CondAtoms() {
+			if strings.Contains(a, "isIdentFirstChar(") || strings.Contains(a, "isLetter(") {
+				found = true
+			}
+		}
+		r.AddSites(1)
+		if !found {
+			r.Note("Scanner.Scan no longer dispatches on isLetter/isIdentFirstChar; the quoting predicate must be re-derived")
+		}
+	}
+
+	// ---- codec loops encode / decode every element in place (parallel lists stay aligned)
+	r5 := c.Rule("C12.R5", "K-LOOPSELECT", queryPkg+": encode*/decode* loops ship every element and keep parallel lists aligned (no continue/break, no compaction by append)")
+	n := 0
+	for _, d := range c.P.AllDecls() {
+		if !an.InPkg(d, queryPkg) {
+			continue
+		}
+		nm := d.Obj.Name()
+		if !(strings.HasPrefix(nm, "encode") || strings.HasPrefix(nm, "decode") || strings.HasPrefix(nm, "Encode") || strings.HasPrefix(nm, "Decode")) {
+			continue
+		}
+		if !strings.HasSuffix(c.P.Fset.Position(d.Decl.Pos()).Filename, "processor_codec.go") {
+			continue
+		}
+		ast.Inspect(d.Decl.Body, func(m ast.Node) bool {
+			var body *ast.BlockStmt
+			var over string
+			switch x := m.(type) {
+			case *ast.RangeStmt:
+				body, over = x.Body, types.ExprString(x.X)
+			case *ast.ForStmt:
+				body, over = x.Body, "index"
+			default:
+				return true
+			}
+			n++
+			var walk func(nd ast.Node)
+			walk = func(nd ast.Node) {
+				ast.Inspect(nd, func(k ast.Node) bool {
+					switch y := k.(type) {
+					case *ast.FuncLit, *ast.RangeStmt, *ast.ForStmt:
+						if k != nd {
+							return false // nested loops are visited on their own
+						}
+					case *ast.BranchStmt:
+						if y.Tok.String() == "continue" || y.Tok.String() == "break" {
+							key := d.Name() + ": " + y.Tok.String() + " in loop over " + over
+							if why, ok := c12CodecSkips[key]; ok {
+								r5.Except(key, why)
+							} else {
+								r5.Fail(key, c.P.Pos(y.Pos()), "%s skips elements of %s while encoding/decoding: the lists of an IndexRelation (Oids, IndexNames, IndexList, IndexOptions) are addressed by one index, a compacted list is shifted against the others on the store node", d.Name(), over)
+							}
+						}
+					}
+					return true
+				})
+			}
+			walk(body)
+			return true
+		})
+	}
+	r5.AddSites(n)
+	r5.Floor(12, "loops in the option codec")
 }
